@@ -184,7 +184,9 @@ PROPS["C13"] = dict(
          "compared too. Second run (hand-over interleavings): under the cooperative scheduler, writers owning disjoint keys overwrite and "
          "remove while a Flush thread and a primary GC thread (ToGC: flush, close, rename, reopen) run, with scheduling points inside "
          "freelist Flush/ToGC; after quiescence every non-deleted primary record that no index entry names must be on the freelist exactly "
-         "once, nothing current and nothing twice. Non-trivial = distinct trace with a non-empty freelist.",
+         "once, nothing current and nothing twice. 30% of these schedules are relocation-window schedules (the collector stopped between the "
+         "copy of a record and the re-pointing while the owner overwrites or removes the key: known finding D32). "
+         "Non-trivial = distinct trace with a non-empty freelist.",
     assumptions=["sequential histories; the hand-over interleavings (freelist Put || Flush || ToGC) are exercised by the sched engine under C06",
                  "crash loss of unflushed freelist entries is a space leak recorded as known finding D19 (not exercised here)"],
 )
